@@ -4350,7 +4350,11 @@ def refresh_schema_and_set_result(control_conn, response_future, connection, **k
     try:
         log.debug("Refreshing schema in response to schema change. "
                   "%s", kwargs)
-        response_future.is_schema_agreed = control_conn._refresh_schema(connection, **kwargs)
+        if control_conn._schema_meta_enabled:
+            response_future.is_schema_agreed = control_conn._refresh_schema(connection, **kwargs)
+        else:
+            # no metadata to refresh: only wait for, and report, schema agreement
+            response_future.is_schema_agreed = control_conn.wait_for_schema_agreement(connection)
     except Exception:
         log.exception("Exception refreshing schema in response to schema change:")
         response_future.session.submit(control_conn.refresh_schema, **kwargs)
